@@ -41,19 +41,85 @@ class TokenTable:
 TOKENS = TokenTable()
 
 
-class _FormatterNp:
-    """Stand-in for the numpy module inside default_formatter."""
+def _is_symbolic(x) -> bool:
+    return type(x).__module__.startswith("crosshair")
+
+
+class _ScalarNp:
+    """Pure-Python versions of the scalar numpy functions gscrib's plain-Python core could
+    reasonably call on a coordinate, so that symbolic values survive them. Anything else falls
+    through to the real numpy (CrossHair then realises the value at the C boundary, or numpy
+    raises, which the harness reports as an exception it cannot replay)."""
 
     @staticmethod
     def isfinite(x):
         return math.isfinite(x)
 
     @staticmethod
-    def format_float_positional(x, **kw):
-        return TOKENS.add(x, dict(kw))
+    def isnan(x):
+        return x != x
+
+    @staticmethod
+    def isinf(x):
+        return x == math.inf or x == -math.inf
+
+    @staticmethod
+    def isclose(a, b, rtol=1e-05, atol=1e-08, equal_nan=False):
+        if a != a or b != b:
+            return bool(equal_nan and a != a and b != b)
+        if a == b:
+            return True
+        if not (math.isfinite(a) and math.isfinite(b)):
+            return False
+        d = a - b
+        if d < 0:
+            d = -d
+        mb = b if b >= 0 else -b
+        return d <= atol + rtol * mb
+
+    @classmethod
+    def allclose(cls, a, b, rtol=1e-05, atol=1e-08, equal_nan=False):
+        if isinstance(a, (list, tuple)) or isinstance(b, (list, tuple)):
+            return all(cls.isclose(x, y, rtol, atol, equal_nan) for x, y in zip(a, b))
+        return cls.isclose(a, b, rtol, atol, equal_nan)
+
+    @staticmethod
+    def abs(x):
+        return x if x >= 0 else -x
+
+    absolute = abs
+    fabs = abs
+
+    @staticmethod
+    def sign(x):
+        return 1.0 if x > 0 else (-1.0 if x < 0 else 0.0)
+
+    @staticmethod
+    def maximum(a, b):
+        return a if a >= b else b
+
+    @staticmethod
+    def minimum(a, b):
+        return a if a <= b else b
+
+    @staticmethod
+    def clip(x, lo, hi):
+        return lo if x < lo else (hi if x > hi else x)
+
+    @staticmethod
+    def float64(x):
+        return x
 
     def __getattr__(self, name):  # anything else: the real thing
         return getattr(_real_np, name)
+
+
+class _FormatterNp(_ScalarNp):
+    """Stand-in for the numpy module inside default_formatter."""
+
+    @staticmethod
+    def format_float_positional(x, **kw):
+        return TOKENS.add(x, dict(kw))
 
 
 class PyVec:
@@ -84,15 +150,12 @@ class PyVec:
         return len(self.items)
 
 
-class _PointNp:
+class _PointNp(_ScalarNp):
     @staticmethod
     def array(items, *a, **kw):
         return PyVec(items)
 
     ndarray = _real_np.ndarray
-
-    def __getattr__(self, name):
-        return getattr(_real_np, name)
 
 
 class SymText:
